@@ -574,7 +574,9 @@ class Render1:
                 self.kw("且")
                 self.expr(e[3], 3, mapctx)
             else:
-                self.expr(e[2], 4, mapctx)
+                # comparisons are one level and associate from left to right like every other level (manual chapter 3,
+                # BNF ‹比较表达式›): a comparison as LEFT operand of a comparison needs no braces
+                self.expr(e[2], 3, mapctx)
                 s = self.pick(CMP[ty])
                 self.out.append(Tok(s, "kw" if ord(s[0]) > 255 else "op"))
                 self.expr(e[3], 4, mapctx)
